@@ -4,6 +4,7 @@ CONSTANTS
   KF = {}
   RecSet = {"4:a", "6:b", "k:c"}
   Modes = {"min_max", "accept_any", "ignore_any", "ignore_on_failure"}
+  IvSet = {"bad", "iv1"}
   MaxBuf = 4
   MaxNow = 100000
   D = 40
